@@ -328,9 +328,12 @@ func (w *World) closeCalledBefore(i int) bool {
 
 // monitorProgress checks C10 at quiescence: the read routine sits on a live
 // connection, the client is online and every request returned.
-func (w *World) monitorProgress() {
+func (w *World) monitorProgress() { w.monitorProgressAs("C10") }
+
+// monitorProgressAs attributes a lack of progress to the given property.
+func (w *World) monitorProgressAs(prop string) {
 	if w.horizonHit {
-		w.Violate("C10", "no-stabilisation", "execution did not become quiet within %d steps", w.step)
+		w.Violate(prop, "no-stabilisation", "execution did not become quiet within %d steps", w.step)
 		return
 	}
 	if !w.quiet {
@@ -352,18 +355,18 @@ func (w *World) monitorProgress() {
 		if !th.parked {
 			where += " (blocked inside the library)"
 		}
-		w.Violate("C10", "reader-wedged", "at quiescence the read routine is not reading from a live connection: %s; state %s", where, mqtt.VerifDump(w.client))
+		w.Violate(prop, "reader-wedged", "at quiescence the read routine is not reading from a live connection: %s; state %s", where, mqtt.VerifDump(w.client))
 		return
 	}
 	d := mqtt.VerifDump(w.client)
 	if !strings.Contains(d, "on=released") || !strings.Contains(d, "writeSem="+live.String()+" ") {
-		w.Violate("C10", "not-online-after-connect", "read routine reads from %s but the client is not serving: %s", live, d)
+		w.Violate(prop, "not-online-after-connect", "read routine reads from %s but the client is not serving: %s", live, d)
 	}
 	for _, a := range w.actors {
 		if a.gen == w.gen && a.spec.Reader == nil && !a.finished {
 			op := a.spec.Ops[a.pc]
 			if op.Kind != "online" && op.Kind != "offline" {
-				w.Violate("C10", "request-not-released#"+op.Kind, "%s op %d (%s) still pending at quiescence", a.spec.Name, a.pc, op.Kind)
+				w.Violate(prop, "request-not-released#"+op.Kind, "%s op %d (%s) still pending at quiescence", a.spec.Name, a.pc, op.Kind)
 			}
 		}
 	}
